@@ -79,7 +79,8 @@ def main():
         assert r.returncode == 0, r.stderr
         a = sh(['git', '-C', wt2, 'apply', os.path.abspath(patch)])
         assert a.returncode == 0, a.stderr
-        env2 = dict(os.environ, VERIF_SRC=wt2 + '/src', VERIF_EVIDENCE_DIR='/tmp/seed-evidence-%s-%s' % (pid, name))
+        env2 = dict(os.environ, VERIF_SRC=wt2 + '/src', VERIF_EVIDENCE_DIR='/tmp/seed-evidence-%s-%s' % (pid, name),
+                    VERIF_STOP_AT_FIRST='1')
         where = 'scratch worktree via VERIF_SRC'
     try:
         for p in [pid] + also:
